@@ -266,6 +266,11 @@ func genDual(r *rand.Rand) DBody {
 		if r.Intn(4) == 0 {
 			add("multi", pick(r, []DExpr{g.refOrTmpl(), {Kind: "list", Items: []DExpr{g.ref()}}}))
 		}
+		if i%2 == 0 && len(g.decls) > 0 {
+			// a computed-only attribute set anyway (no random draw): decoded like any other in both syntaxes
+			g.nref++
+			add("arn", DExpr{Kind: "tmpl", Str: g.decls[0]})
+		}
 		if typ == "aws" {
 			add("zone", DExpr{Kind: "str", Str: "z1"})
 			if r.Intn(2) == 0 {
